@@ -247,6 +247,45 @@ def gen_lift():
     return dst
 
 
+NATK_MANIFEST = """[package]
+name = "natk"
+version = "0.0.0"
+edition = "2024"
+
+[dependencies]
+ordinals = { path = "%s/crates/ordinals" }
+liftk = { path = "../liftk" }
+bitcoin = { version = "0.32.5", features = ["rand", "serde"] }
+
+[profile.release]
+overflow-checks = false
+debug-assertions = false
+
+[workspace]
+"""
+
+
+def gen_natk():
+    """build/natk: native evaluator of the real functions (translator validation and
+    counterexample replay). Depends on /repo/crates/ordinals and on the lift crate."""
+    gen_lift()
+    dst = os.path.join(C.BUILD, "natk")
+    _write_if_changed(os.path.join(dst, "src", "main.rs"), open(os.path.join(C.VERIF, "harness", "natk", "src", "main.rs")).read())
+    _write_if_changed(os.path.join(dst, "Cargo.toml"), NATK_MANIFEST % C.REPO)
+    _write_if_changed(os.path.join(dst, "Cargo.lock"), open(os.path.join(C.REPO, "Cargo.lock")).read())
+    return dst
+
+
+def build_natk(profile="dev"):
+    d = gen_natk()
+    cmd = ["cargo", "build", "--offline"] + (["--release"] if profile == "release" else [])
+    rc, out, wall = C.run(cmd, cwd=d, timeout=3000, extra_env={"CARGO_TARGET_DIR": os.path.join(C.BUILD, "t-natk")},
+                          log=os.path.join(C.BUILD, "logs", "natk_build_%s.log" % profile))
+    if rc != 0:
+        raise GenError("natk build failed:\n" + out[-3000:])
+    return os.path.join(C.BUILD, "t-natk", "release" if profile == "release" else "debug", "natk")
+
+
 def playback_tests(text):
     """All concrete-playback tests for failed (non-cover) checks, deduplicated."""
     seen, res = set(), []
